@@ -18,9 +18,9 @@ Dims == <<
   <<"GET", "HEAD", "POST", "PUT", "DELETE", "OPTIONS", "PATCH">>,                              \* 1 method
   <<"/", "/a/b", "/a%2Fb", "/a%20b/", "//double", "/x/./y">>,                                   \* 2 path
   <<"", "a=1&b=2", "q=%20%26&x", "a=1&a=2;c=3">>,                                              \* 3 query
-  <<"none", "multi", "emptyval", "cookies", "accept_enc", "custom_ae", "te_trailers", "xff">>, \* 4 request headers
+  <<"none", "multi", "emptyval", "cookies", "accept_enc", "custom_ae", "te_trailers", "xff", "expect_100">>, \* 4 request headers
   <<"none", "cl_small", "cl_32k", "cl_big", "chunked_small", "chunked_big">>,                  \* 5 request body
-  <<"200", "201", "204", "304", "301", "404", "500", "503">>,                                   \* 6 status
+  <<"200", "201", "204", "304", "301", "404", "500", "503", "103+404", "103+200">>,             \* 6 status (103+x: Early Hints first)
   <<"plain", "setcookies", "unusual_ct", "pre_gzip", "no_ct">>,                                 \* 7 response headers
   <<"none", "cl_small", "cl_64k1", "chunked3", "stream3", "sse">>,                              \* 8 response body
   <<"", "/api">>,                                                                               \* 9 backend base path
@@ -58,6 +58,7 @@ Check(c, o) ==
      \o (IF o.reached /\ \E h \in extra : Name(h) \notin AllowedAdded THEN <<"RequestHeaderAdded">> ELSE <<>>)
      \o (IF o.reached /\ missing # {} THEN <<"RequestHeaderDropped">> ELSE <<>>)
      \o (IF v.resp.status # d.resp.status THEN <<"Status">> ELSE <<>>)
+     \o (IF v.resp.interim # d.resp.interim THEN <<"InterimResponses">> ELSE <<>>)
      \o (IF \E h \in rextra : Name(h) \notin AllowedOnResponse THEN <<"ResponseHeaderAdded">> ELSE <<>>)
      \o (IF rmissing # {} THEN <<"ResponseHeaderDropped">> ELSE <<>>)
      \o (IF v.resp.body # d.resp.body THEN <<"ResponseBody">> ELSE <<>>)
